@@ -263,6 +263,7 @@ func (c *DFACache) Clear() {
 	// Clear map (GC will reclaim memory)
 	c.states = make(map[StateKey]*State)
 	c.stateList = c.stateList[:0]
+	c.flatTrans = c.flatTrans[:0] // rows belong to the discarded states
 	c.startTable = newStartTableFromByteMap(&c.startTable.byteMap)
 	c.nextID = StateID(c.stride)
 	c.clearCount = 0
@@ -293,6 +294,10 @@ func (c *DFACache) ClearKeepMemory() {
 		delete(c.states, k)
 	}
 	c.stateList = c.stateList[:0]
+	// State IDs are handed out again from the beginning: the transition rows
+	// of the discarded states must not be inherited by the new ones.
+	// Insert re-grows the table with unknown (InvalidState) entries.
+	c.flatTrans = c.flatTrans[:0]
 	c.startTable = newStartTableFromByteMap(&c.startTable.byteMap)
 	c.nextID = StateID(c.stride)
 	c.clearCount++
@@ -349,6 +354,7 @@ func (c *DFACache) Reset() {
 		delete(c.states, k)
 	}
 	c.stateList = c.stateList[:0]
+	c.flatTrans = c.flatTrans[:0] // rows belong to the discarded states
 	c.startTable = newStartTableFromByteMap(&c.startTable.byteMap)
 	c.nextID = StateID(c.stride)
 	c.clearCount = 0
